@@ -1430,6 +1430,11 @@ class IndexGitShaMap(GitShaMap):
             self._get_entry(key)
         except KeyError:
             self._builder.add_node(key, value)
+            # The index file is named after what is written to it: a name
+            # derived from everything that was offered would be reused (and
+            # the earlier file overwritten) when known objects are offered
+            # again.
+            self._name.update(b"\0".join(key) + b"\0" + value + b"\n")
             return False
         else:
             return True
@@ -1496,7 +1501,6 @@ class IndexGitShaMap(GitShaMap):
             type_data: Type-specific data tuple.
         """
         if hexsha is not None:
-            self._name.update(hexsha)
             if type == b"commit":
                 td = (type_data[0], type_data[1])
                 with contextlib.suppress(KeyError):
@@ -1504,10 +1508,8 @@ class IndexGitShaMap(GitShaMap):
             else:
                 td = type_data
             self._add_node((b"git", hexsha, b"X"), b" ".join((type,) + td))
-        else:
-            # This object is not represented in Git - perhaps an empty
-            # directory?
-            self._name.update(type + b" ".join(type_data))
+        # Otherwise this object is not represented in Git - perhaps an empty
+        # directory?
 
     def lookup_blob_id(self, fileid, revision):
         """Retrieve a Git blob SHA by file ID and revision from index.
